@@ -154,6 +154,7 @@ func zzNewSyncEnv(ctx context.Context, K, stored, getterErrs int, gates bool) *z
 	zz.Assert(err == nil, "NewSyncer succeeds")
 	env.s = s
 	zz.Assert(s.Start(ctx) == nil, "Start succeeds")
+	env.st.gateHead = gates && zz.Param("STOREGATES", 0) == 1
 	return env
 }
 
